@@ -41,7 +41,7 @@ SHAPES = {
 CHILDREN = [
     0, 1, "", "a", None, False, True, 1.5, [], {}, {"a": 1}, {"a": 0}, {"a": None}, {"a": False},
     {"a": "a", "b": "b"}, {"a": [1, 2], "b": 0}, {"b": 1}, {"a": {"a": 1}}, [1], [0, {"a": 1}], [[1]], "abc",
-    "\U0001F600\U0001F600", {"a": "\U0001F600"},
+    "\U0001F600\U0001F600", {"a": "\U0001F600"}, {"n": 7, "e": []}, {"a": 1, "b": []}, {"a": [], "b": {}}, {"a": None, "b": []},
 ]
 
 
@@ -179,6 +179,10 @@ def builtin_queries():
         "$[?value(@) == null]", "$[?value(@) == false]", "$[?value(@.a) == null]", "$[?value(@.a) == false]",
         "$[?value(@) == 0]", "$[?value(@) == '']", "$[?length(value(@)) == 3]", "$[?value(@[?@ == 1]) == 1]",
         "$[?count(@) == count($)]", "$[?length(@) == count(@.*)]",
+        # 'nothing' from a function is equal to nothing else: not to [], {}, "", 0, false, null
+        "$[?length(@.n) == @.e]", "$[?length(@.a) == @.b]", "$[?value(@.zz) == @.b]", "$[?value(@.*) == @.b]",
+        "$[?@.b == length(@.a)]", "$[?length(@.a) != @.b]", "$[?value(@.zz) == @.a]", "$[?length(@.a) == length(@.n)]",
+        "$[?value(@.zz) <= @.b]", "$[?length(@.n) >= @.e]",
     ]
     return out
 
